@@ -426,7 +426,7 @@ func (g *c14Gen) statement(header string) string {
 		}
 	} else {
 		shapes = []string{"plain", "comma", "join", "subq-from", "subq-scalar", "subq-where", "cte", "cte-shadow", "lateral", "union",
-			"funcbody", "timefn", "from-first", "explain", "sample", "layered", "layered"}
+			"funcbody", "timefn", "from-first", "explain", "sample", "layered", "layered", "deep", "deep"}
 		if !verifkit.Excluded(c14FindStmtHead) {
 			shapes = append(shapes, "head", "head")
 		}
@@ -540,6 +540,56 @@ func (g *c14Gen) statement(header string) string {
 			return S + " " + first + "max(s.tag) " + F + " " + aref + " c CROSS JOIN " + cm + lit + " s"
 		default:
 			return S + " " + first + "count(*) " + F + " (" + S + " 1 AS one " + F + " " + aref + ") c, " + cm + lit + " s"
+		}
+	case "deep":
+		// deep nesting: the FROM clause holding the comma-joined path literal sits
+		// k levels down (redundant parentheses, nested scalar subqueries, nested
+		// function calls / CASE, parenthesised FROM items)
+		g.tag("deep-nesting")
+		g.ment = true
+		k := rapid.SampledFrom([]int{1, 2, 8, 31, 32, 33, 40, 64, 200}).Draw(g.t, "depth")
+		g.tag(fmt.Sprintf("depth:%d", k))
+		pth := fmt.Sprintf("%s/%s/%s/%s/%s", g.e.root, U.DB, U.M, c14Partition, U.FileName)
+		lit := g.oneOf("deeplit", "'"+pth+"'", "'"+pth+"'", `"`+pth+`"`, "$$"+pth+"$$", "E'"+pth+"'", "$t_1$"+pth+"$t_1$")
+		var inner string
+		switch g.oneOf("deeppos", "comma", "comma", "comma", "from", "join") {
+		case "comma":
+			inner = S + " max(s.tag) " + F + " " + aref + " c, " + lit + " s"
+		case "from":
+			inner = S + " max(tag) " + F + " " + lit
+		default:
+			inner = S + " max(s.tag) " + F + " " + aref + " c CROSS JOIN " + lit + " s"
+		}
+		switch g.oneOf("deepkind", "parens", "parens", "subqueries", "functions", "case", "from-item", "mixed") {
+		case "parens":
+			return S + " " + ex + strings.Repeat("(", k) + inner + strings.Repeat(")", k) + " AS x"
+		case "subqueries":
+			q := inner
+			for i := 0; i < k; i++ {
+				q = S + " (" + q + ") AS x" + fmt.Sprint(i)
+			}
+			return q
+		case "functions":
+			return S + " " + ex + strings.Repeat("lower(", k) + "(" + inner + ")" + strings.Repeat(")", k) + " AS x"
+		case "case":
+			return S + " " + ex + strings.Repeat("CASE WHEN true THEN (", k) + "(" + inner + ")" + strings.Repeat(") END", k) + " AS x"
+		case "from-item":
+			in2 := strings.Replace(inner, "max(s.tag)", "s.tag", 1)
+			in2 = strings.Replace(in2, "max(tag)", "tag", 1)
+			return S + " " + ex + "max(q.tag) " + F + " " + strings.Repeat("(", k) + in2 + strings.Repeat(")", k) + " q"
+		default:
+			q := "(" + inner + ")"
+			for i := 0; i < k; i++ {
+				switch i % 3 {
+				case 0:
+					q = "(" + q + ")"
+				case 1:
+					q = "lower(" + q + ")"
+				default:
+					q = "(" + S + " " + q + ")"
+				}
+			}
+			return S + " " + ex + q + " AS x"
 		}
 	case "sample":
 		return g.join(S, ex+g.proj(""), F, g.ref(U, header), g.oneOf("sample", "USING SAMPLE 5", "TABLESAMPLE RESERVOIR(5)", "t(a, b, c, d)", "AS t"), g.closer())
